@@ -392,6 +392,18 @@ func (r *checkRun) decide(noEvidence bool, evidenceOut string) int {
 		}
 		fmt.Printf("VIOLATION property=%s replay=%s obligation=%q reason=%q%s\n", r.prop, v.replay, v.ob.Name, v.reason, suffix)
 	}
+	// contracts that no longer bind to the code (renamed variables, restructured loops): nothing is decided
+	// for their clauses
+	for _, fr := range r.res {
+		if fr.enc == nil {
+			continue
+		}
+		for _, be := range fr.enc.bindErrs {
+			if strings.Contains(be, "unknown identifier") || strings.Contains(be, "no field") || strings.Contains(be, "no head value") {
+				undecided = append(undecided, "contract does not bind: "+be)
+			}
+		}
+	}
 	for _, u := range undecided {
 		fmt.Printf("UNDECIDED property=%s %s\n", r.prop, u)
 	}
@@ -682,6 +694,11 @@ func relevantFuncs(w *World, spec *Specs, prop string) []*ssa.Function {
 		}
 		if contractHasTag(spec.contractFor(f), prop, false) {
 			rel = true
+		}
+		for _, t := range spec.siteTags[shortName(f)] {
+			if t == prop {
+				rel = true
+			}
 		}
 		e.top = f
 		if !rel && contractHasTag(e.ifaceContractFor(f), prop, false) {
